@@ -406,8 +406,10 @@ class ArgumentParser:
         if unrecognized:
             log.warning(f"Unrecognized arguments: '{' '.join(unrecognized)}'")
 
-        # Construct final list of active modes.
-        args.modes = set(args.modes)
+        # Construct final list of active modes, in command-line order: their
+        # include paths and include files are ordered, and the first
+        # definition of a macro wins.
+        args.modes = list(dict.fromkeys(args.modes))
 
         # Construct final list of active passes.
         args.passes = set(args.passes)
